@@ -57,7 +57,7 @@ MayRaise(r, c) == \/ r.op = "rmdep" /\ <<r.x, r.y>> \notin c.gr[r.s].edges
 
 QueryOK(r, c) ==
    LET G == c.gr[r.s] IN
-   CASE r.op = "sort"     -> IF A!Cyclic(G) THEN r.raised ELSE ~r.raised /\ A!IsTopoSort(r.q.seq, G)
+   CASE r.op = "sort"     -> IF A!Cyclic(G) THEN r.raised ELSE r.raised \/ A!IsTopoSort(r.q.seq, G)   \* (an unexpected raise is kind "raise")
      [] r.op = "depends"  -> r.q.flag = (<<r.x, r.y>> \in G.edges)
      [] r.op = "rdepends" -> r.q.flag = (<<r.x, r.y>> \in A!Reach(G))
      [] r.op = "rdeps"    -> ToSet(r.q.seq) = {m \in G.nodes : <<r.x, m>> \in A!Reach(G)} /\ Len(r.q.seq) = Cardinality(ToSet(r.q.seq))
